@@ -347,6 +347,12 @@ func (conn *Conn) initialise() {
 	conn.out = make(chan string, 32)
 	conn.die = nil
 	conn.generation++
+	// Capability negotiation starts afresh on every connection: what an
+	// earlier server advertised or acknowledged, and a SASL exchange the old
+	// link cut short, say nothing about this one.
+	conn.supportedCaps.Clear()
+	conn.currCaps.Clear()
+	conn.saslRemainingData = nil
 	if conn.st != nil {
 		conn.st.Wipe()
 	}
